@@ -269,6 +269,43 @@ class C12(Check):
                "hand-written model Model/Extract.v (Go slice semantics: length/capacity checks explicit) tied by five correspondence streams incl. two malformed streams",
                "Spec/SessionMsgs.v: TS 24.501 8.2.11/8.3.2 and TS 24.007 IE formats, X.691 layout of the transfer derived by hand (confirmed each run against the library's own aper encoder in stream transfer-lib)",
                "Go harness cmd_extract.go: inputs are copied into slices whose capacity equals their length; 2 s watchdog per call"]
-    assumptions = ["input slice capacity = length (inside the emulator the NAS-PDU is a sub-slice of a 2048-octet receive buffer: reads past the length then see stale octets instead of panicking)",
+    assumptions = ["input slice capacity = length (inside the emulator the NAS-PDU is a sub-slice of the receive buffer: reads past the length then see stale octets instead of panicking)",
                    "transfer IEs in front of id 139 have values shorter than 128 octets (one-octet open-type length), as in every definition-order encoding",
                    "a panic counts as terminating (the property asks for termination)"]
+
+    # ---- process level: the whole procedure (read, decode, extract, report) on requests of every size the property names
+    def extra(self, harness, build_ok):
+        import concurrent.futures as cf, re, sys, os
+        from .. import proc
+        sys.path.insert(0, os.path.join(C.VERIF, "refamf"))
+        binary, err = C.build_emulator()
+        if binary is None:
+            raise RuntimeError("emulator build failed: " + err[-1500:])
+        sizes = [0, 9, 300, 1400, 1900, 2100, 3000, 4000] if self.tier == "quick" else [0, 1, 9, 127, 128, 300, 1000, 1400, 1850, 1900, 1950, 2048, 2100, 2500, 3000, 3500, 4000]
+        cfgs = []
+        for i, q in enumerate(sizes):
+            c = proc.default_cfg(self.rng.fork("est%d" % i) if i else None, counts=[1, 1, 0, 0, 0])
+            c["qos_lens"] = [q]
+            cfgs.append(c)
+        with cf.ThreadPoolExecutor(max_workers=8) as ex:
+            runs = list(ex.map(lambda c: proc.run(binary, c, self.seed + c["qos_lens"][0]), cfgs))
+        rows = []
+        for c, r in zip(cfgs, runs):
+            q = c["qos_lens"][0]
+            reported = {}
+            for m in re.finditer(r"VERIF-SESSION imsi-(\d+) (\S+) (\d+) (\S+)", r["stdout"]):
+                reported[m.group(1)] = (m.group(2), int(m.group(3)), m.group(4))
+            exp = {}
+            for ue in r["amf"].ues.values():
+                if hasattr(ue, "ip"):
+                    exp[ue.supi] = (".".join(str(b) for b in ue.ip), int.from_bytes(ue.teid, "big"), ".".join(str(b) for b in ue.upf))
+            with self._lock:
+                self.cov["evaluations"] += 1
+                self._distinct.add("establish-%d" % q)
+            rows.append({"qos_rules_octets": q, "rc": r["rc"], "verdict": r["verdict"], "reported": reported, "assigned": exp})
+            if r["rc"] != 0 or not exp or reported != exp:
+                self.violation({"theorem_or_stream": "process: EstablishPDU against the reference SMF", "input": {"qos_rules_octets": q, "imsi": c["imsi"]},
+                                "observed": {"rc": r["rc"], "verdict": r["verdict"], "reported": reported, "stdout": r["stdout"][-500:]}, "expected": {"assigned": exp},
+                                "why": "the emulator did not report the assigned UE address / TEID / UPF address for a well-formed setup request"})
+        self.cov["establish"] = rows
+
